@@ -164,7 +164,7 @@ def discharge_call(prog, ctx, site, fa, tb, eng):
         return None
     if base in ("unwrap", "expect"):
         r0 = tb.operand(t["args"][0])
-        if r0[0] == "call" and ("rwlock::RwLock" in r0[1] or "mutex::Mutex" in r0[1]) and r0[1].split("::")[-1] in ("read", "write", "lock"):
+        if r0[0] == "call" and ("rwlock::RwLock" in r0[1] or "mutex::Mutex" in r0[1]) and r0[1].split("::")[-1] in ("read", "write", "lock", "into_inner", "get_mut"):
             return ("lock poisoning requires a panic while the guard is held; the guarded sections are the TranspositionTable operations whose own panic sites "
                     "are part of this inventory")
     if base in ("unwrap", "expect") and st is not None:
